@@ -1,6 +1,7 @@
 """Path exploration by replay, path conditions, obligations, solver back ends."""
 from __future__ import annotations
 
+import os
 import subprocess
 import zlib
 import tempfile
@@ -562,8 +563,30 @@ class State:
         self.trace.append(ev)
 
 
+_HAS_QUANT = None
+
+
 def _has_quantifier(f, cap=4000):
-    """Does the z3 formula contain a quantifier? (bounded search; a huge formula counts as 'yes')"""
+    """Does the z3 formula contain a quantifier? (a huge formula -- more than `cap` distinct sub-expressions -- counts
+    as 'yes').  Decided by z3's own probes (`has-quantifiers`, `num-exprs`) on a one-formula goal: the walk over the
+    AST in Python that this replaces took a third of the wall time of tasks that assume many large ground formulas.
+    Same answers as the walk (`_has_quantifier_walk`, kept as the reference; compared on every formula when
+    PYVC_CHECK_PROBES=1)."""
+    global _HAS_QUANT
+    if not z3.is_expr(f):
+        return False
+    if _HAS_QUANT is None:
+        _HAS_QUANT = (z3.Probe("has-quantifiers"), z3.Probe("num-exprs"))
+    g = z3.Goal()
+    g.add(f)
+    r = _HAS_QUANT[0](g) != 0 or _HAS_QUANT[1](g) > cap
+    if os.environ.get("PYVC_CHECK_PROBES") and r != _has_quantifier_walk(f, cap) and not (not r and _HAS_QUANT[1](g) > cap - 50):
+        raise RuntimeError(f"has-quantifiers probe disagrees with the AST walk on {_short(f)}")
+    return r
+
+
+def _has_quantifier_walk(f, cap=4000):
+    """Reference implementation of `_has_quantifier`: bounded search over the AST."""
     todo, seen = [f], set()
     while todo:
         e = todo.pop()
